@@ -66,6 +66,39 @@ pub fn write_read<M: Paths, const N: usize>(wmask: u16, rmask: u16) {
     std::mem::forget(world);
 }
 
+/// The same through keys of every kind (typed, dynamic, direct, direct-dynamic) for the paths
+/// that take a key: each reaches exactly the entity the key designates.
+pub fn paths_agree_keys<M: Paths, const N: usize>() {
+    let m: Model<N> = Model::any_inv();
+    let k = sym::any_usize();
+    sym::assume(k < m.len);
+    let mut world = load::<M, N>(&m);
+    let (key, ver) = m.handle_raw(M::ID, k);
+    let any = EntityAny::from_raw((key, ver)).ok().unwrap();
+    let typed: Entity<M::Arch> = any.try_into().ok().unwrap();
+    let d = direct_of::<M>(k, m.version);
+    let da: EntityDirectAny = d.into();
+    let kind = sym::any_u8();
+    sym::assume(kind < 4);
+    let keyv = match kind {
+        0 => Key::Typed(typed),
+        1 => Key::Any(any),
+        2 => Key::Direct(d),
+        _ => Key::DirectAny(da),
+    };
+    let mut path = 0u8;
+    while path < 5 {
+        let got = M::read_key(&mut world, keyv, path);
+        assert!(got.is_some(), "a key of a live entity was rejected by a read path");
+        let (v, x, ok) = got.unwrap();
+        assert!(v == m.val[k] && ok && (x ^ m.aux[k]) & M::AUX_MASK == 0, "a read path reached another entity's values through this key kind");
+        path += 1;
+    }
+    cover!(kind == 2 && m.ent_slot[k] as usize != k, "direct key of an entity whose slot position differs from its dense index");
+    cover!(kind == 1, "dynamic key");
+    std::mem::forget(world);
+}
+
 const R_QUERIES: u16 = 0b0000_0000_1111;
 const R_VIEWS: u16 = 0b0000_0111_0000;
 const R_SLICES: u16 = 0b1111_1000_0000;
@@ -82,6 +115,10 @@ harness! { fn c02_paths_slices_tri_3() unwind(14) { paths_agree::<w3::Tri, 3>(R_
 harness! { fn c02_paths_all_tri_2() unwind(14) { paths_agree::<w3::Tri, 2>(R_ALL) } }
 harness! { fn c02_paths_all_other_2() unwind(14) { paths_agree::<w3::Other, 2>(R_ALL) } }
 harness! { fn c02_paths_all_bar_2() unwind(14) { paths_agree::<w1::Bar, 2>(R_ALL) } }
+
+harness! { fn c02_paths_keys_tri_3() unwind(7) { paths_agree_keys::<w3::Tri, 3>() } }
+harness! { fn c02_paths_keys_foo_3() unwind(7) { paths_agree_keys::<w1::Foo, 3>() } }
+harness! { fn c02_paths_keys_other_2() unwind(7) { paths_agree_keys::<w3::Other, 2>() } }
 
 harness! { fn c02_write_queries_tri_2() unwind(4) { write_read::<w3::Tri, 2>(W_QUERIES, R_ALL) } }
 harness! { fn c02_write_others_tri_2() unwind(4) { write_read::<w3::Tri, 2>(W_OTHERS, R_ALL) } }
